@@ -96,8 +96,8 @@ def mechanism(ctx):
     quick = ctx.tier == "quick"
     # (cfg, pool size, runtime levels on the default build, runtime levels on the DEBUG=5 build)
     runs = [("MemTrack_quick.cfg", 3, [0, 1, 3, 4, 5], [5])] if quick else [
-        ("MemTrack_quick.cfg", 3, [0, 1, 3, 4, 5], [0, 4, 5]), ("MemTrack_thorough.cfg", 3, [4, 5], [5]),
-        ("MemTrack_levels.cfg", 3, [0, 6], [6]), ("MemTrack_pool4.cfg", 4, [5], [5])]
+        ("MemTrack_quick.cfg", 3, [0, 1, 3, 4, 5], [0, 4, 5]), ("MemTrack_thorough.cfg", 3, [0, 4, 5], [5]),
+        ("MemTrack_levels.cfg", 3, [0, 6], [6]), ("MemTrack_pool4.cfg", 4, [0, 5], [5])]
     walks = (300, 40) if quick else (3000, 80)
     ref = None
     for cfg, n, levels, levels5 in runs:
